@@ -645,7 +645,7 @@ func c31Run(t *testing.T, leg string) {
 
 	logger := slog.New(slog.NewTextHandler(io.Discard, nil))
 	s3f := newVfS3(0)
-	nDirect, nRouted := r.N(600, 8000), r.N(250, 2500)
+	nDirect, nRouted := r.N(600, 16000), r.N(250, 5000)
 	if v, err := strconv.Atoi(os.Getenv("C31_DEV_N")); err == nil && v > 0 {
 		nDirect, nRouted = v, v/2 // development knob only; never set by bin/check
 	}
